@@ -11,7 +11,7 @@ Require Import Blots.Num Blots.gen.Builtins Blots.Ast Blots.Value Blots.Outcome 
                Blots.proofs.ValueInd Blots.proofs.StoreMono Blots.proofs.InstMono Blots.proofs.FullInst
                Blots.proofs.Frames Blots.proofs.Scoping
                Blots.proofs.C02Ren Blots.proofs.C02Sim Blots.proofs.C02Ops Blots.proofs.C02Keep Blots.proofs.C02Twice
-               Blots.proofs.C02Let Blots.proofs.EmitHO Blots.proofs.RelPure.
+               Blots.proofs.C02Let Blots.proofs.EmitHO Blots.RelTable Blots.proofs.RelPure.
 Require Blots.BuiltinsList Blots.BuiltinsAgg Blots.BuiltinsText.
 Import ListNotations.
 Open Scope list_scope.
@@ -166,3 +166,8 @@ Proof.
   exact (proj1 (let_abstraction_head release binop_impl builtin_full ops_commute_full d x s st st1 fr v
                   Hwf Hx Hs Hv Hlen Hk eA eB rA cA rB cB H HA HB)).
 Qed.
+
+(* the classification RelTable.calls_back is exact for the model: every other arm ignores its callback *)
+Lemma builtin_full_ignores_callback : forall b, calls_back b = false ->
+  forall cb cb' args st, builtin_full cb b args st = builtin_full cb' b args st.
+Proof. intros b H cb cb' args st. destruct b; try discriminate H; reflexivity. Qed.
